@@ -1,2 +1,4 @@
 #!/bin/bash
-for id in "$@"; do for i in 1 2; do [ -d /tmp/wt/$id/.scratch/change_$i ] && /verif/tools/seed_eval.sh /tmp/wt/$id/.scratch/change_$i $id $id-r4-$i 2>&1 | tail -1 | cut -c1-400; done; done
+# tools/run_seeds.sh <round-tag e.g. r5> <ID>... : evaluate /tmp/wt/<ID>/.scratch/change_{1,2,3} as seeds <ID>-<round>-<i>
+tag="$1"; shift
+for id in "$@"; do for i in 1 2 3; do [ -d /tmp/wt/$id/.scratch/change_$i ] && /verif/tools/seed_eval.sh /tmp/wt/$id/.scratch/change_$i $id $id-$tag-$i 2>&1 | tail -1 | cut -c1-400; done; done
